@@ -430,6 +430,25 @@ func derivedFromArgs(v ssa.Value, args ssa.Value, depth int) bool {
 		}
 		return false
 	case *ssa.UnOp:
+		// a load of a field of a freshly allocated struct yields whatever was
+		// stored into that field: &object.Array{Elements: in.Elements} shares
+		// the argument's backing array
+		if fa, ok := x.X.(*ssa.FieldAddr); ok && x.Op == token.MUL {
+			if al, ok := throughLocal(fa.X).(*ssa.Alloc); ok {
+				for _, ref := range allocAliases(al) {
+					fa2, ok := ref.(*ssa.FieldAddr)
+					if !ok || fa2.Field != fa.Field {
+						continue
+					}
+					for _, r2 := range *fa2.Referrers() {
+						if st, ok := r2.(*ssa.Store); ok && st.Addr == ssa.Value(fa2) && derivedFromArgs(st.Val, args, depth+1) {
+							return true
+						}
+					}
+				}
+				return false
+			}
+		}
 		return derivedFromArgs(x.X, args, depth+1)
 	case *ssa.IndexAddr:
 		return derivedFromArgs(x.X, args, depth+1)
@@ -459,6 +478,54 @@ func derivedFromArgs(v ssa.Value, args ssa.Value, depth int) bool {
 		return derivedFromArgs(x.X, args, depth+1)
 	}
 	return false
+}
+
+// throughLocal: a load of a local variable that is assigned exactly once is
+// the assigned value (variables captured by closures are spilled to memory).
+func throughLocal(v ssa.Value) ssa.Value {
+	for i := 0; i < 4; i++ {
+		u, ok := v.(*ssa.UnOp)
+		if !ok || u.Op != token.MUL {
+			return v
+		}
+		al, ok := u.X.(*ssa.Alloc)
+		if !ok {
+			return v
+		}
+		var only ssa.Value
+		n := 0
+		for _, ref := range *al.Referrers() {
+			if st, ok := ref.(*ssa.Store); ok && st.Addr == ssa.Value(al) {
+				only = st.Val
+				n++
+			}
+		}
+		if n != 1 {
+			return v
+		}
+		v = only
+	}
+	return v
+}
+
+// allocAliases: the instructions that use a fresh allocation, directly or
+// through a once-assigned local variable that holds its address.
+func allocAliases(al *ssa.Alloc) []ssa.Instruction {
+	out := append([]ssa.Instruction{}, *al.Referrers()...)
+	for _, ref := range *al.Referrers() {
+		st, ok := ref.(*ssa.Store)
+		if !ok || st.Val != ssa.Value(al) {
+			continue
+		}
+		if slot, ok := st.Addr.(*ssa.Alloc); ok {
+			for _, r2 := range *slot.Referrers() {
+				if ld, ok := r2.(*ssa.UnOp); ok && ld.Op == token.MUL {
+					out = append(out, *ld.Referrers()...)
+				}
+			}
+		}
+	}
+	return out
 }
 
 func rulePureArgs(p *Program, r *Reporter) {
@@ -877,4 +944,3 @@ func anyPredIsTest(b *ssa.BasicBlock, tests map[*ssa.BasicBlock]bool) bool {
 	}
 	return false
 }
-
